@@ -41,6 +41,7 @@ import (
 	"github.com/hyperledger/aries-framework-go/component/models/signature/verifier"
 	"github.com/hyperledger/aries-framework-go/component/storageutil/mem"
 	kmsapi "github.com/hyperledger/aries-framework-go/spi/kms"
+	spistorage "github.com/hyperledger/aries-framework-go/spi/storage"
 )
 
 var c04Types = map[string]kmsapi.KeyType{
@@ -62,8 +63,10 @@ var (
 	c04Pool          = map[string][]*c04Key{}
 )
 
-func c04NewKMS() kmsapi.KeyManager {
-	st, e := kmscomp.NewAriesProviderWrapper(mem.NewProvider())
+func c04NewKMS() kmsapi.KeyManager { return c04NewKMSOver(mem.NewProvider()) }
+
+func c04NewKMSOver(prov spistorage.Provider) kmsapi.KeyManager {
+	st, e := kmscomp.NewAriesProviderWrapper(prov)
 	if e != nil {
 		panic(e)
 	}
